@@ -109,6 +109,9 @@ type Opt struct {
 	BaseURI string            // retrieval URI of the root (ResolveOptions.BaseURI)
 	Docs    map[string]string // loader documents by retrieval URI
 	DocsKey string            // rendered into the case key when Docs is set
+	// ValidateDefaults resolves with that option; a Resolve error is then not judged (a default
+	// may legitimately be refused), but when Resolve succeeds every verdict must still be R1's
+	ValidateDefaults bool
 }
 
 var (
@@ -184,7 +187,17 @@ func Against(r *ev.Run, j par.Journal, text string, pool []Inst, o Opt) int {
 		ml := &MapLoader{Docs: o.Docs}
 		ropts = &jsonschema.ResolveOptions{BaseURI: o.BaseURI, Loader: ml.Load}
 	}
+	if o.ValidateDefaults {
+		if ropts == nil {
+			ropts = &jsonschema.ResolveOptions{}
+		}
+		ropts.ValidateDefaults = true
+	}
 	rs, stage, cerr := Compile(text, ropts)
+	if stage == "resolve" && o.ValidateDefaults {
+		r.Add("validate_defaults_refused", 1)
+		return 0
+	}
 	if stage != "" {
 		r.Fail(o.Prefix+ktext, map[string]any{"class": stage, "error": cerr.Error(), "want": "schema accepted (in-domain document)"})
 		return 1
